@@ -529,9 +529,9 @@ def check_dataclass_and_unprintable(ctx):
             if how == "no_type_check":
                 Checked.__init__ = typing.no_type_check(Checked.__init__)
                 fn = typing.no_type_check(fn)
-            else:
-                jaxtyping.config.update("jaxtyping_disable", True)
             case = {"dataclass_disabled": [ck, how]}
+            if how == "config":
+                set_valid(case, True)
             try:
                 bad = np.zeros((2, 2)).view(ga.UnprintableArray)
                 for args in (("not-an-int", bad), (3, np.zeros((4,)).view(ga.UnprintableArray))):
